@@ -175,6 +175,35 @@ theorem getitem_int_spec {T} (bs : List (Blk T)) (ts : List (Str × T)) (s : Sta
     have h2 : ((i : Int) - ts.length + ts.length).toNat = i := by omega
     simp [h1, h2, ho, hi]
 
+/-- integer indexing outside `-len … len-1` is an IndexError, never a wrapped-around table:
+    with `getitem_int_spec` this characterises `bundle[i]` for every integer -/
+theorem getitem_int_out_of_range {T} (bs : List (Blk T)) (ts : List (Str × T)) (s : State T)
+    (hts : Spec.tables bs = some ts) (hs : ofBlocks bs = .ok s) (i : Int)
+    (hi : (ts.length : Int) ≤ i ∨ i < -(ts.length : Int)) :
+    getitemInt s i = .error .indexError := by
+  obtain ⟨s', h1, h2, _, _, _⟩ := bundle_refines_spec bs ts hts
+  rw [hs] at h1; cases h1
+  have ho : s.order = ts.map (·.2) := h2
+  have hl : s.order.length = ts.length := by simp [ho]
+  unfold getitemInt
+  simp only [hl]
+  rcases hi with hi | hi
+  · have h0 : ¬ (i < 0) := by omega
+    simp only [h0, if_false]
+    have hn : s.order[i.toNat]? = none := by
+      apply List.getElem?_eq_none; omega
+    simp [hn]
+  · have h0 : i < 0 := by omega
+    have h1 : i + (ts.length : Int) < 0 := by omega
+    simp [h0, h1]
+
+/-- the number of tables is the number of iterated tables (`len(bundle) == len(list(bundle))`) -/
+theorem len_eq_iter_length {T} (bs : List (Blk T)) (ts : List (Str × T)) (s : State T)
+    (hts : Spec.tables bs = some ts) (hs : ofBlocks bs = .ok s) : len s = (iter s).length := by
+  obtain ⟨s', h1, h2, h3, _, _⟩ := bundle_refines_spec bs ts hts
+  rw [hs] at h1; cases h1
+  rw [h2, h3]; simp
+
 /-- `unique` / item access by name: the single table, not-unique error, or KeyError -/
 theorem unique_spec {T} (bs : List (Blk T)) (ts : List (Str × T)) (s : State T)
     (hts : Spec.tables bs = some ts) (hs : ofBlocks bs = .ok s) (n : Str) :
